@@ -49,14 +49,22 @@ def bounded_request_independence(tier, seed):
 
     def same(a, b):
         return all(abs(x - y) <= 1e-9 * max(1.0, abs(x), abs(y)) for x, y in zip(vals(a), vals(b)))
-    for k in range(3 if tier == 'quick' else 12):
-        shot = std_shot(P, rng, look_deg=rng.choice([0.0, 3.0]), winds=[P.Wind(P.Unit.MPH(rng.uniform(0, 15)), P.Unit.Degree(rng.uniform(0, 360)))])
+    for k in range(6 if tier == 'quick' else 18):
+        # one to three wind segments; segment ends between 15 and 140 yd so that the requests below end on both sides
+        # of small multiples of them (a wind field that depends on the requested range shows up)
+        nseg = 1 + k % 3
+        ends = sorted(rng.uniform(15, 70) * (j + 1) for j in range(nseg - 1))
+        winds = [P.Wind(P.Unit.MPH(rng.uniform(3, 20)), P.Unit.Degree(rng.uniform(0, 360)), P.Unit.Yard(e)) for e in ends]
+        winds.append(P.Wind(P.Unit.MPH(rng.uniform(0, 15)), P.Unit.Degree(rng.uniform(0, 360))))
+        shot = std_shot(P, rng, look_deg=rng.choice([0.0, 3.0]), winds=winds)
         calc = P.Calculator()
         calc.set_weapon_zero(shot, P.Unit.Yard(100))
         base = calc.fire(shot, P.Unit.Yard(600), P.Unit.Yard(50)).trajectory
         idx = {key(r): r for r in base}
         variants = {
             'shorter range': calc.fire(shot, P.Unit.Yard(300), P.Unit.Yard(50)).trajectory,
+            'much shorter range': calc.fire(shot, P.Unit.Yard(150), P.Unit.Yard(50)).trajectory,
+            'longer range': P.Calculator().fire(shot, P.Unit.Yard(1000), P.Unit.Yard(50)).trajectory,
             'coarser step': calc.fire(shot, P.Unit.Yard(600), P.Unit.Yard(150)).trajectory,
             'finer step': calc.fire(shot, P.Unit.Yard(600), P.Unit.Yard(25)).trajectory,
             'time step': calc.fire(shot, P.Unit.Yard(600), P.Unit.Yard(50), time_step=0.05).trajectory,
@@ -74,7 +82,7 @@ def bounded_request_independence(tier, seed):
             cases += 1
             got = {key(r): r for r in tr}
             common = [d for d in idx if d in got]
-            if name in ('shorter range',) and not all(d in idx for d in got):
+            if name in ('shorter range', 'much shorter range') and not all(d in idx for d in got):
                 bad = f'{name}: a row of the shorter request is missing from the longer one'
             if name == 'coarser step' and not all(d in idx for d in got):
                 bad = f'{name}: a row of the coarser request is missing from the finer one'
